@@ -28,6 +28,8 @@ const T_INS: &str = "INSERT INTO ks.cap (op, a, b, c) VALUES (?, ?, ?, ?)";
 const T_SEL: &str = "SELECT a FROM ks.cap WHERE op = ?";
 /// a conditional statement: the node marks it as LWT in its PREPARED answer (SCYLLA_LWT_ADD_METADATA_MARK)
 const T_LWT: &str = "INSERT INTO ks.cap (op, a, b, c) VALUES (?, ?, ?, ?) IF NOT EXISTS";
+/// named bind markers, two of them used twice: the frame carries one value per MARKER (op, a, b, c, a, op)
+const T_NAMED: &str = "UPDATE ks.cap SET a = :a, b = :b, c = :c WHERE op = :op IF a != :a AND op = :op";
 
 /// Captures every non-system request; pages SELECTs with a scripted paging state.
 struct Capture {
@@ -51,6 +53,17 @@ impl Handler for Capture {
                 ColSpec::new("ks", "cap", "a", ColType::Int),
                 ColSpec::new("ks", "cap", "b", ColType::Text),
                 ColSpec::new("ks", "cap", "c", ColType::BigInt),
+            ];
+            d.pk_indexes = vec![0];
+            Some(d)
+        } else if query == T_NAMED {
+            d.bind = vec![
+                ColSpec::new("ks", "cap", "op", ColType::BigInt),
+                ColSpec::new("ks", "cap", "a", ColType::Int),
+                ColSpec::new("ks", "cap", "b", ColType::Text),
+                ColSpec::new("ks", "cap", "c", ColType::BigInt),
+                ColSpec::new("ks", "cap", "a", ColType::Int),
+                ColSpec::new("ks", "cap", "op", ColType::BigInt),
             ];
             d.pk_indexes = vec![0];
             Some(d)
@@ -115,9 +128,20 @@ struct Ask {
     b_unset: bool,
     b: String,
     c: i64,
+    /// execute_unpaged only: values bound BY NAME (a map) to a statement that uses two names twice
+    named: bool,
 }
 
 fn want_values(a: &Ask) -> Vec<Value> {
+    let mut v = want_values_once(a);
+    if a.named {
+        v.push(v[1].clone());
+        v.push(v[0].clone());
+    }
+    v
+}
+
+fn want_values_once(a: &Ask) -> Vec<Value> {
     vec![
         Value::Bytes((a.op as i64).to_be_bytes().to_vec()),
         match a.a {
@@ -214,6 +238,7 @@ pub fn run_c09_b(ctx: &Ctx) -> Outcome {
         if lwt.is_confirmed_lwt() {
             o.class("statement-marked-LWT-by-the-node");
         }
+        let named = session.prepare(T_NAMED).await.unwrap();
         let mut sel = session.prepare(T_SEL).await.unwrap();
         if mixed {
             // the cached result metadata (and, where negotiated, its id) is used instead of asking for metadata again
@@ -232,7 +257,9 @@ pub fn run_c09_b(ctx: &Ctx) -> Outcome {
                 b_unset: rng.chance(1, 4),
                 b: (0..rng.usize(0, 12)).map(|_| *rng.pick(&['x', 'é', '0', ' ', '日'])).collect(),
                 c: rng.i64_boundary(),
+                named: false,
             };
+            let a = Ask { named: a.api == "execute_unpaged" && rng.chance(1, 3), ..a };
             let replay = json!({"part": "b", "ask": format!("{a:?}")});
             // every fourth request finds its prepared statement evicted at the node: the EXECUTE / BATCH that is
             // re-sent after UNPREPARED + re-preparation is the frame the handler sees, and it must say the same
@@ -251,6 +278,29 @@ pub fn run_c09_b(ctx: &Ctx) -> Outcome {
                     st.set_timestamp(a.timestamp);
                     st.set_page_size(a.page_size);
                     session.query_unpaged(st, vals).await.map(|_| ()).map_err(|e| e.to_string())
+                }
+                "execute_unpaged" if a.named => {
+                    use scylla::value::CqlValue;
+                    let mut p = named.clone();
+                    p.set_consistency(a.cl);
+                    p.set_serial_consistency(a.serial);
+                    p.set_timestamp(a.timestamp);
+                    p.set_page_size(a.page_size);
+                    let cells: [(&str, MaybeUnset<Option<CqlValue>>); 4] = [
+                        ("op", MaybeUnset::Set(Some(CqlValue::BigInt(a.op as i64)))),
+                        ("a", MaybeUnset::Set(a.a.map(CqlValue::Int))),
+                        ("b", if a.b_unset { MaybeUnset::Unset } else { MaybeUnset::Set(Some(CqlValue::Text(a.b.clone()))) }),
+                        ("c", MaybeUnset::Set(Some(CqlValue::BigInt(a.c)))),
+                    ];
+                    o.class("values-bound-by-name:marker-used-twice");
+                    match a.op % 4 {
+                        0 => session.execute_unpaged(&p, cells.iter().cloned().collect::<std::collections::HashMap<&str, _>>()).await,
+                        1 => session.execute_unpaged(&p, cells.iter().cloned().map(|(k, v)| (k.to_string(), v)).collect::<std::collections::HashMap<String, _>>()).await,
+                        2 => session.execute_unpaged(&p, cells.iter().cloned().collect::<std::collections::BTreeMap<&str, _>>()).await,
+                        _ => session.execute_unpaged(&p, cells.iter().cloned().map(|(k, v)| (k.to_string(), v)).collect::<std::collections::BTreeMap<String, _>>()).await,
+                    }
+                    .map(|_| ())
+                    .map_err(|e| e.to_string())
                 }
                 "execute_unpaged" => {
                     let mut p = if rng.chance(1, 3) { lwt.clone() } else { ins.clone() };
@@ -428,7 +478,7 @@ pub fn run_c09_b(ctx: &Ctx) -> Outcome {
     for c in ["compression:none", "compression:lz4-negotiated", "compression:snappy-negotiated", "compression:lz4-asked-node-offers-snappy-only", "compression:snappy-asked-node-offers-none", "mixed-cluster:metadata-id-extension-on-one-node-only", "mixed-cluster:EXECUTE-frames-on-the-node-without-the-extension"] {
         o.require_class(c);
     }
-    for c in ["api:query_unpaged", "api:execute_unpaged", "api:batch", "api:query_single_page", "api:execute_single_page", "api:caching_execute_single_page", "caching-session:skip-metadata-flag-on-the-wire", "paging-state-returned-verbatim", "frame-re-sent-after-UNPREPARED", "statement-marked-LWT-by-the-node"] {
+    for c in ["api:query_unpaged", "api:execute_unpaged", "api:batch", "api:query_single_page", "api:execute_single_page", "api:caching_execute_single_page", "caching-session:skip-metadata-flag-on-the-wire", "paging-state-returned-verbatim", "frame-re-sent-after-UNPREPARED", "values-bound-by-name:marker-used-twice", "statement-marked-LWT-by-the-node"] {
         o.require_class(c);
     }
     o
